@@ -348,6 +348,19 @@ pub fn npn_canonization(
     }
 }
 
+/// Verification hook: the swap and flip sequences used by the canonization for this number of variables
+#[cfg(volute_verif)]
+pub fn verif_canon_sequences(num_vars: usize) -> (Vec<u8>, Vec<u8>) {
+    if num_vars <= 6 {
+        (SWAPS[num_vars].to_vec(), FLIPS[num_vars].to_vec())
+    } else {
+        (
+            generate_swaps(num_vars, true),
+            generate_gray_flips(num_vars, true),
+        )
+    }
+}
+
 #[cfg(test)]
 mod tests {
     use crate::canonization::{generate_gray_flips, generate_swaps};
